@@ -87,8 +87,13 @@ func runC04(c *vh.Ctx) {
 		nc := 1 + c.Rng.Intn(3)
 		for k := 0; k < nc; k++ {
 			body := constantHeavy(g, c, 1+c.Rng.Intn(4))
-			if c.Rng.Intn(3) == 0 {
+			switch c.Rng.Intn(8) {
+			case 0, 1:
 				body = closedExpr(g, c, 1+c.Rng.Intn(3))
+			case 2, 3:
+				body = shortCircuitProbe(c, g)
+			case 4:
+				body = foldsToEntityProbe(c, g)
 			}
 			p.Conditions = append(p.Conditions, ast.ConditionType{Condition: ast.Condition(c.Rng.Intn(4) != 0), Body: body})
 		}
